@@ -683,6 +683,24 @@ fn gen_node(rng: &mut Rng, out: &mut String, depth: usize) {
                 out.push_str(name);
                 out.push('>');
                 if rng.chance(1, 2) {
+                    // HTML content at an integration point inside the foreign namesake: every
+                    // stack walk that looks for "the td" / "the template" / "the html" by name
+                    // meets the foreign element first
+                    let ip = if root.starts_with("<svg") {
+                        rng.pick_str(&["<foreignObject>", "<desc>", "<title>"])
+                    } else {
+                        rng.pick_str(&["<mi>", "<mtext>", "<annotation-xml encoding=text/html>", "<mo>"])
+                    };
+                    out.push_str(ip);
+                    for _ in 0..rng.range(1, 4) {
+                        out.push_str(rng.pick_str(&[
+                            "<table>", "</table>", "<template>", "</template>", "<td>", "<th>", "<tr>", "<tbody>", "<caption>", "</caption>", "</td>", "<frameset>",
+                            "<select>", "</select>", "<body>", "<html a=b>", "<head>", "<p>", "</p>", "<li>", "<dd>", "<button>", "<form>", "</form>", "<input>", "<option>",
+                            "<colgroup>", "<col>", "x", "<b>", "</b>", "<a>", "<script></script>", "</body>", "</html>", "<h1>", "<title>t</title>", "<textarea>",
+                        ]));
+                    }
+                }
+                if rng.chance(1, 2) {
                     out.push_str("</");
                     out.push_str(rng.pick_str(&["a", "b", "i", "p", "table", "template", "svg", "math", "body", "html", "div"]));
                     out.push('>');
@@ -1085,4 +1103,18 @@ pub const CONTEXTS: &[(&str, &str)] = &[
     ("mathml", "mi"),
     ("mathml", "annotation-xml"),
     ("mathml", "mtext"),
+    // context elements from other vocabularies (an element parsed by xml5ever, the null namespace),
+    // and foreign elements named like HTML raw-text / special elements
+    ("", "a"),
+    ("", "title"),
+    ("urn:example:widgets", "x"),
+    ("urn:example:widgets", "script"),
+    ("urn:example:widgets", "template"),
+    ("http://www.w3.org/1999/xlink", "href"),
+    ("svg", "script"),
+    ("svg", "style"),
+    ("svg", "textarea"),
+    ("mathml", "title"),
+    ("svg", "template"),
+    ("mathml", "td"),
 ];
